@@ -1,4 +1,22 @@
-"""C01  Field index answers every comparison query exactly, after any history."""
+"""C01  Field index answers every comparison query exactly, after any history.
+
+Generator modes (measured, quick tier, seed 0, 4000 cases): small 78%, bulk-hot 17%, bulk-wide 4%; the largest
+posting reached 65-120 docids in 11%, 121-300 in 6%, > 300 in 0.2% of the cases; > 30 distinct values in 4%;
+> 120 documents without a value in 2%; value kinds int 24%, num (int/float/bool mixed) 20%, str 20%, tuple 10%,
+bytes 10%, wide 10%, widestr 6%.
+
+Size- / value- / entry-point-dependent mutations tried on scratch copies (VERIF_REPO=/var/tmp/mut_strong1_<N>,
+deleted afterwards), all VIOLATION with a shrunk replay, quick tier, seed 0:
+  M1  applyInRange ignores excludemin/excludemax when the forward BTree has more than 32 keys (needs bulk-wide)
+  M2  index_doc takes a falsy value ('' / () / b'') as "no value"
+  M6  BaseIndexMixin.docids drops not_indexed once more than 150 documents are indexed (needs bulk)
+  M8  search() turns a float constant q into the range (int(q), q)
+  M9  reindex_doc returns early for an id that is not indexed yet
+  M11 apply({'query': [..]}) defaults to operator 'and'
+  M12 docids() cached on (indexed_count, not_indexed_count)
+and the seeded changes C01_C (range fast path ignoring exclusive bounds) and C01_F (postings start as Set, promoted to
+TreeSet at 64 docids, the 65th docid is lost).
+"""
 from lib.core import exc_name, idset
 
 ID = "C01"
@@ -8,14 +26,25 @@ THEOREMS = ["Hyp.Field." + t for t in (
     "c01_docids", "c01_noteq", "c01_notany", "c01_notinrange", "c01_inverted_range_empty", "c01_any_nil",
     "c01_no_stale", "c01_eq_tuple_is_range")]
 CASES = {"quick": 4000, "thorough": 40000}
-BUDGET_S = {"quick": 40, "thorough": 700}
-RULE = ("histories of 5-60 (thorough: up to 400) index/reindex/unindex/reset calls over docids 0..15 plus "
-        "extreme ids, 3-8 values (int or str, order-preservingly ranked for the model), 20% no-value, "
-        "10% unindex (half unknown ids), 3% reset; after each op with prob. 1/4 and at the end all ten "
-        "comparisons via index.applyX and via index.X(..).execute() with constants present/absent/below/"
-        "above/between, inverted ranges, empty and duplicate any-lists; both BTrees families; attribute and "
-        "callable discriminators. non-trivial = state becomes non-empty and the answers contain at least "
-        "one non-empty and two different id sets")
+BUDGET_S = {"quick": 34, "thorough": 660}
+RULE = ("small mode (78%): histories of 5-60 (thorough: up to 400) index_doc/reindex_doc/unindex_doc/reset calls "
+        "over docids 0..15 plus extreme ids, 3-8 values, 17% no-value, 8% identical content again, 10% unindex "
+        "(half unknown ids, sometimes twice), 3% reset; bulk-hot mode (17%): 70-400 documents (dense or strided "
+        "docid runs anywhere in the family's range, ascending/descending/shuffled) share 1-4 values so that one "
+        "posting holds 65-400 docids, in 12% of them also 121-199 documents without a value, in 45% a drain that "
+        "takes the big posting back to 58-66 docids (or to nothing) by unindex / withdrawal / re-valuing, then a "
+        "small history on first/last/random bulk ids and fresh ids; bulk-wide mode (4%): 70-400 documents over "
+        "35-110 distinct values (forward BTree beyond one bucket). Value pools, ranked order-preservingly to Int "
+        "for the model: int, str (incl. ''), num (ints, floats and bools mixed: 0 == 0.0 == -0.0 == False, 1 == 1.0 "
+        "== True, 2**53 == float(2**53) are ONE value whose spellings take turns; -2**70 .. 2**70, +-inf), tuples "
+        "of numbers (Eq with a tuple constant = finding D13), bytes (incl. b''), 120 ints / 120 strings. After "
+        "each op with prob. 1/4 and at the end all ten comparisons via index.applyX and via "
+        "index.X(..).execute() with constants present/absent/neighbouring/below/above, inverted ranges, empty and "
+        "duplicate any-lists; FieldIndex.apply() itself with {'query': v}, {'query': [..], 'operator': "
+        "'or'/'and'/absent}, bare value, list, RangeValue (bare and in a dict); the enumeration tuple (indexed, "
+        "not_indexed, docids, counts, unique_values; sometimes twice in a row) and document_repr; both BTrees "
+        "families; attribute and callable discriminators. non-trivial = the answers contain at least one "
+        "non-empty and three different id sets")
 LEVEL_TEXT = ("Lean 4 refinement proof: for every history the model of FieldIndex represents the history's "
               "document table (invariant by induction over operations), and every comparison / negation "
               "returns exactly the ids whose current value satisfies it, for all constants and any linearly "
@@ -229,7 +258,7 @@ def gen_bulk(rng, tier, fam, vtype, kind):
         # drain: the largest posting shrinks to the neighbourhood of 64 (demotion-style changes need that)
         members = [d for d, v in pairs if v == hot[0]]
         rng.shuffle(members)
-        target = rng.randrange(58, 67)
+        target = 0 if rng.random() < 0.2 else rng.randrange(58, 67)     # 0: the big posting goes away entirely
         for d in members[target:]:
             r = rng.random()
             if r < 0.6:
